@@ -24,7 +24,6 @@ import (
 	"strings"
 	"sync"
 	"testing"
-	"time"
 
 	"github.com/nuts-foundation/nuts-node/cmd"
 	"github.com/spf13/pflag"
@@ -840,7 +839,6 @@ func TestCheck(t *testing.T) {
 	defer vault.Close()
 	w := world{vaultAddr: vault.URL, pki: filepath.Join(repoDir(), "test", "pki")}
 
-	t0 := time.Now()
 	cases := generate(r, secrets)
 	thorough := r.Thorough()
 	results := make([]result, len(cases))
@@ -866,7 +864,6 @@ func TestCheck(t *testing.T) {
 	}
 	close(work)
 	wg.Wait()
-	fmt.Printf("NOTE property=C20 TIMING children done %v\n", time.Since(t0))
 
 	for _, res := range results {
 		evaluate(r, res)
@@ -878,7 +875,6 @@ func TestCheck(t *testing.T) {
 	for _, s := range directSamples {
 		r.Sample(s)
 	}
-	fmt.Printf("NOTE property=C20 TIMING direct done %v\n", time.Since(t0))
 }
 
 func witness(res result) map[string]any {
